@@ -24,7 +24,7 @@ Proof. reflexivity. Qed.
 (* a ComboRoute held in a variable reads the AutoHead setting when .Get registers, not when Combo made it;
    a toggle in between counts from there on, also for the statements after the Combo *)
 Theorem C11_combo_autohead_at_get : forall ah b pp ph path common added rest,
-  combo_at ah pp ph path common added (CAuto b :: rest) = combo_at (mkf b (f_wr ah)) pp ph path common added rest.
+  combo_at ah pp ph path common added (CAuto b :: rest) = combo_at (set_ah b ah) pp ph path common added rest.
 Proof. reflexivity. Qed.
 
 (* .Headers(...) on what Routes returns constrains the route of the last method only *)
@@ -52,6 +52,16 @@ Example C11_example :
           mkfreg [80;79;83;84]%N [47;97;47;99;47;100]%N [1;3;4] false false;
           mkfreg m_get [47;101]%N [5] false false; mkfreg m_head [47;101]%N [5] false false].
 Proof. vm_compute. reflexivity. Qed.
+
+(* a ComboRoute kept in a variable registers where its method is CALLED: a method added after the group that
+   made the value has closed lands outside that group (no group path, no group handlers) *)
+Example C11_example_combo_across_scopes :
+  exec false [SGroup [47;103]%N [1] [SComboNew 7 [47;99]%N [2]; SComboUse 7 m_get [3]]; SComboUse 7 [80;85;84]%N [4];
+              SGroup [47;104]%N [5] [SComboUse 7 [80;79;83;84]%N [6]]]
+  = Some [mkfreg m_get [47;103;47;99]%N [1;2;3] false false; mkfreg [80;85;84]%N [47;99]%N [2;4] false false;
+          mkfreg [80;79;83;84]%N [47;104;47;99]%N [5;2;6] false false] /\
+  exec false [SComboNew 1 [47;99]%N []; SComboUse 1 m_get []; SGroup [47;103]%N [] [SComboUse 1 m_get []]] = None.
+Proof. vm_compute. repeat split. Qed.
 
 Example C11_example_combo_toggle :
   exec false [SCombo [47;99]%N [] [CAuto true; CUse m_get [1]]; SCombo [47;100]%N [] [CUse m_get [2]; CAuto false]; SGet [47;101]%N [3] false]
